@@ -14,24 +14,24 @@ TRUSTED_BASE = [
 
 # modules whose theorems are the obligations of the property (audited); `ties` are built too (a failure = tie broken)
 PROPS = {
-    "C01": dict(modules=["Cvss.Props.C01", "Cvss.Props.ParseTieTransfer", "Cvss.Props.C01v2", "Cvss.Props.C01v3", "Cvss.Props.C01v4"], ties=["Cvss.Props.ParseTie"], streams=["parse"]),
-    "C02": dict(modules=["Cvss.Props.C02", "Cvss.Props.C02v2", "Cvss.Props.C02v3", "Cvss.Props.C02v4"], ties=["Cvss.Props.ParseTie"], streams=["parse", "obj"]),
+    "C01": dict(modules=["Cvss.Props.C01", "Cvss.Props.ParseTieTransfer", "Cvss.Props.ParseTie", "Cvss.Props.C01v2", "Cvss.Props.C01v3", "Cvss.Props.C01v4"], ties=["Cvss.Props.ParseTie"], streams=["parse"]),
+    "C02": dict(modules=["Cvss.Props.C02", "Cvss.Props.GenParsers", "Cvss.Props.ParseTie", "Cvss.Props.C02v2", "Cvss.Props.C02v3", "Cvss.Props.C02v4"], ties=["Cvss.Props.ParseTie"], streams=["parse", "obj"]),
     "C03": dict(modules=["Cvss.Props.C03", "Cvss.Proofs.Score3Base30", "Cvss.Proofs.Score3Base31", "Cvss.Proofs.Score3Close30", "Cvss.Proofs.Score3Close31", "Cvss.Proofs.Score3CloseDef", "Cvss.Proofs.Score3Codes30", "Cvss.Proofs.Score3Codes31", "Cvss.Proofs.Score3Env30_0", "Cvss.Proofs.Score3Env30_1", "Cvss.Proofs.Score3Env30_2", "Cvss.Proofs.Score3Env30_3", "Cvss.Proofs.Score3Env31_0", "Cvss.Proofs.Score3Env31_1", "Cvss.Proofs.Score3Env31_2", "Cvss.Proofs.Score3Env31_3", "Cvss.Proofs.Score3M30", "Cvss.Proofs.Score3M31", "Cvss.Proofs.Score3Main30", "Cvss.Proofs.Score3Main31", "Cvss.Proofs.Score3Roundup", "Cvss.Proofs.Score3Spec", "Cvss.Proofs.Score3T30", "Cvss.Proofs.Score3T31", "Cvss.Proofs.Score3Util"], ties=[], streams=["score:F:30,31"]),
     "C04": dict(modules=["Cvss.Props.C04", "Cvss.Proofs.Score4Main", "Cvss.Proofs.Score4TailAll", "Cvss.Proofs.Score4Groups", "Cvss.Proofs.Score4Loops", "Cvss.Proofs.Score4MV", "Cvss.Proofs.Score4Shape", "Cvss.Spec.V4Lemmas", "Cvss.Proofs.Score4Tail00", "Cvss.Proofs.Score4Tail01", "Cvss.Proofs.Score4Tail02", "Cvss.Proofs.Score4Tail03", "Cvss.Proofs.Score4Tail04", "Cvss.Proofs.Score4Tail05", "Cvss.Proofs.Score4Tail06", "Cvss.Proofs.Score4Tail07", "Cvss.Proofs.Score4Tail08", "Cvss.Proofs.Score4Tail09", "Cvss.Proofs.Score4Tail10", "Cvss.Proofs.Score4Tail11", "Cvss.Proofs.Score4Tail12", "Cvss.Proofs.Score4Tail13", "Cvss.Proofs.Score4Tail14", "Cvss.Proofs.Score4Tail15", "Cvss.Proofs.Score4Tail16", "Cvss.Proofs.Score4Tail17"], ties=[], streams=["score:F:40"]),
     "C05": dict(modules=["Cvss.Props.C05", "Cvss.Proofs.Score2Base", "Cvss.Proofs.Score2Defs", "Cvss.Proofs.Score2F", "Cvss.Proofs.Score2Main", "Cvss.Proofs.Score2Mono", "Cvss.Proofs.Score2Near", "Cvss.Proofs.Score2Ok", "Cvss.Proofs.Score2RB00", "Cvss.Proofs.Score2RB01", "Cvss.Proofs.Score2RB02", "Cvss.Proofs.Score2RB10", "Cvss.Proofs.Score2RB11", "Cvss.Proofs.Score2RB12", "Cvss.Proofs.Score2RB20", "Cvss.Proofs.Score2RB21", "Cvss.Proofs.Score2RB22", "Cvss.Proofs.Score2T20", "Cvss.Proofs.Score2T21", "Cvss.Proofs.Score2T22", "Cvss.Proofs.Score2T23", "Cvss.Proofs.Score2T2Mono", "Cvss.Proofs.Score2Tables", "Cvss.Proofs.Score2Wf"], ties=[], streams=["score:F:20"]),
-    "C06": dict(modules=["Cvss.Props.C06", "Cvss.Props.C06v2", "Cvss.Props.C06v3", "Cvss.Props.C06v4"], ties=["Cvss.Props.ParseTie"], streams=["parse"]),
+    "C06": dict(modules=["Cvss.Props.C06", "Cvss.Props.GenParsers", "Cvss.Props.ParseTie", "Cvss.Props.C06v2", "Cvss.Props.C06v3", "Cvss.Props.C06v4"], ties=["Cvss.Props.ParseTie"], streams=["parse"]),
     "C07": dict(modules=["Cvss.Props.C07", "Cvss.Props.C07v4"], ties=[], streams=["obj"]),
-    "C08": dict(modules=["Cvss.Props.C08", "Cvss.Props.C08v2", "Cvss.Props.C08v3", "Cvss.Props.C08v4"], ties=["Cvss.Props.ParseTie"], streams=["parse", "obj"]),
+    "C08": dict(modules=["Cvss.Props.C08", "Cvss.Props.GenParsers", "Cvss.Props.ParseTie", "Cvss.Props.C08v2", "Cvss.Props.C08v3", "Cvss.Props.C08v4"], ties=["Cvss.Props.ParseTie"], streams=["parse", "obj"]),
     "C09": dict(modules=["Cvss.Props.C09", "Cvss.Props.C09v4", "Cvss.Props.C09b"], ties=[], streams=["obj", "parse"]),
     "C10": dict(modules=["Cvss.Props.C10"], ties=[], streams=["score:K"]),
     "C11": dict(modules=["Cvss.Props.C11v2", "Cvss.Props.C11v3", "Cvss.Props.C11v4"], ties=[], streams=["score:F"]),
     "C12": dict(modules=["Cvss.Props.C12v2", "Cvss.Props.C12v3", "Cvss.Props.C12v4", "Cvss.Proofs.Score3MonoA_0", "Cvss.Proofs.Score3MonoA_1", "Cvss.Proofs.Score3MonoA_2", "Cvss.Proofs.Score3MonoA_3", "Cvss.Proofs.Score3MonoBT", "Cvss.Proofs.Score3MonoB_0", "Cvss.Proofs.Score3MonoB_1", "Cvss.Proofs.Score3MonoB_2", "Cvss.Proofs.Score3MonoDefs", "Cvss.Proofs.Score3MonoObj", "Cvss.Proofs.Score3MonoSpec", "Cvss.Proofs.Score3MonoStr", "Cvss.Proofs.Mono4All", "Cvss.Proofs.Mono4Bound", "Cvss.Proofs.Mono4Bridge0", "Cvss.Proofs.Mono4Bridge1", "Cvss.Proofs.Mono4Bridge2", "Cvss.Proofs.Mono4Bridge3", "Cvss.Proofs.Mono4Bridge4", "Cvss.Proofs.Mono4Bridge5", "Cvss.Proofs.Mono4BridgeDef", "Cvss.Proofs.Mono4Cover", "Cvss.Proofs.Mono4Cover36", "Cvss.Proofs.Mono4Cover36H", "Cvss.Proofs.Mono4Cover36L", "Cvss.Proofs.Mono4Cover36N", "Cvss.Proofs.Mono4Eff", "Cvss.Proofs.Mono4Lists", "Cvss.Proofs.Mono4P", "Cvss.Proofs.Mono4Pack", "Cvss.Proofs.Mono4Raw", "Cvss.Proofs.Mono4Tab1", "Cvss.Proofs.Mono4Tab2", "Cvss.Proofs.Mono4Tab36", "Cvss.Proofs.Mono4Tab4", "Cvss.Proofs.Mono4Tab5"], ties=[], streams=["score:M"]),
-    "C13": dict(modules=["Cvss.Props.C13", "Cvss.Props.C13b", "Cvss.Props.C13v2", "Cvss.Props.C13v3", "Cvss.Props.C13v4"], ties=["Cvss.Props.ParseTie"], streams=["parse"]),
+    "C13": dict(modules=["Cvss.Props.C13", "Cvss.Props.GenParsers", "Cvss.Props.ParseTie", "Cvss.Props.C13b", "Cvss.Props.C13v2", "Cvss.Props.C13v3", "Cvss.Props.C13v4"], ties=["Cvss.Props.ParseTie"], streams=["parse"]),
     "C14": dict(modules=["Cvss.Props.C14"], ties=["Cvss.Props.ParseTie"], streams=["race", "hist", "obj"]),
     "C15": dict(modules=["Cvss.Props.C15"], ties=[], streams=["rating"]),
     "C16": dict(modules=["Cvss.Props.C16"], ties=[], streams=["obj"]),
-    "C17": dict(modules=["Cvss.Props.C17"], ties=[], streams=["obj", "alloc"]),
-    "C18": dict(modules=["Cvss.Props.C18", "Cvss.Props.ParseTieTransfer", "Cvss.Props.C18v2", "Cvss.Props.C18v3", "Cvss.Props.C18v4", "Cvss.Findings.C18v2"], ties=["Cvss.Props.ParseTie"], streams=["defect", "obj", "parse"]),
+    "C17": dict(modules=["Cvss.Props.C17", "Cvss.Props.C17b"], ties=[], streams=["obj", "alloc"]),
+    "C18": dict(modules=["Cvss.Props.C18", "Cvss.Props.GenParsers", "Cvss.Props.ParseTie", "Cvss.Props.ParseTieTransfer", "Cvss.Props.C18v2", "Cvss.Props.C18v3", "Cvss.Props.C18v4", "Cvss.Findings.C18v2"], ties=["Cvss.Props.ParseTie"], streams=["defect", "obj", "parse"]),
 }
 
 # the packages a property speaks about: a translator refusal, a model difference or a Spec violation in another package is
@@ -70,12 +70,13 @@ LEVEL_TEXT["C08"] = _lt("proof",
     "fixed*: a canonical string comes back unchanged; twice*: the re-parse returns the same object, so parse-serialise is idempotent.",
     _PARSER_NOTE + "; Spec canonical form (Spec/Grammar.lean)", _TECH)
 LEVEL_TEXT["C17"] = _lt("proof",
-    "PARTIAL. Proved (Props/C17.lean): for every well-formed object of every version len(Vector()) = lenVec() (exact length formula for ALL byte states; per optional metric the "
-    "mask test <-> value != X and the increment = len(prefix)+len(value), incl. U:Clear/Green/Amber/Red), i.e. the pre-sized buffer is never outgrown: in the allocation cost model "
-    "(make = 1, append beyond capacity >= 1) Vector() costs exactly 1. NOT provable in a model: escape analysis, sync.Pool steady state, that nothing else allocates - measured: "
-    "the alloc stream counts real mallocs (runtime.MemStats) for Vector/ParseVector(after valid and after rejected inputs)/Get/Set(legal, illegal)/scores/Rating/Nomenclature on "
-    "every optional metric alone, every value, all together, random objects.",
-    "trusted: Go allocator/escape analysis behaviour (measured, not modelled); translator for Vector/lenVec", _TECH + "; runtime part: allocation measurements")
+    "PARTIAL. Proved: (Props/C17.lean) for every well-formed object of every version len(Vector()) = lenVec() - exact length formula for ALL byte states; per optional metric the "
+    "mask test <-> value != X and the increment = len(prefix)+len(value), incl. U:Clear/Green/Amber/Red; (Props/C17b.lean) in the buffer cost model of Model/Alloc.lean (make = 1 "
+    "allocation, an append beyond the capacity = 1 more) a buffer pre-sized with lenVec() costs exactly ONE allocation for any decomposition of the text into appends, and any "
+    "under-count regrows. NOT provable in a model (measured instead): escape analysis, the unsafe string conversion, sync.Pool steady state, that ParseVector/Get/Set/scores/Rating/"
+    "Nomenclature allocate 0-1: the alloc stream counts real mallocs (runtime.MemStats deltas) for Vector, ParseVector after valid and after rejected inputs, Get, Set (legal and illegal), "
+    "scores, Rating, Nomenclature on every optional metric alone, every value, all together and random objects.",
+    "trusted: Go allocator/escape analysis behaviour (measured, not modelled); translator for Vector/lenVec; the cost model's reading of append", _TECH + "; runtime part: allocation measurements")
 LEVEL_TEXT["C01"] = _lt("proof",
     "Theorems C01.v20/v30/v31/v40: for EVERY byte string (induction, no length bound) the parser model accepts iff the string is in the generative grammar of "
     "Spec/Grammar.lean (right header, only the version's abbreviations, each at most once, order rule, all mandatory metrics, legal values, nothing else), and "
@@ -105,7 +106,9 @@ LEVEL_TEXT["C14"] = _lt("proof",
     "exactly Get/Put in ParseVector; exactly one unsafe conversion per Vector); ParseVector run with ANY stale 14-slot pool buffer equals the pool-free model "
     "(parse20With_indep); for EVERY schedule of the ownership state machine (threads x pool, steps get/tick/put/gc) every result equals the sequential parse "
     "(schedule_independent), with an aliasing counter-model showing the theorem is not vacuous. NOT provable in any model here: the Go memory model, sync.Pool's "
-    "implementation, unsafe aliasing, the race detector's verdict - covered by testing only (race stream: 16 goroutines under -race, poisoned pool, string stability, copies).",
+    "implementation, unsafe aliasing, the race detector's verdict - covered by testing only (race stream under the Go race detector: cold-start concurrency, 16 goroutines, poisoned pool, "
+    "string stability, copies; hist stream: two processes executing the same calls in opposite orders). The determinism statements of Props/C14 section 4 are true by construction of the "
+    "translation (marked as such); the pool state machine is a hand-written model whose sequential core is proved equal to the regenerated v2 parser for every buffer (ParseTie.v20).",
     "trusted: sync.Pool contract (an object obtained by Get is not handed out again before Put) as the model's step rule; translator's state-fact extractor is syntactic "
     "(no alias/data-flow analysis); Go runtime for everything concurrent", _TECH + "; runtime part: stress testing under the race detector")
 LEVEL_TEXT["C15"] = _lt(
@@ -127,8 +130,6 @@ LEVEL_TEXT["C18"] = _lt("proof",
     "illegal value for Get/Set. v2.0: the full statement is FALSE on the unchanged code (known finding F3, negation proved in Findings/C18v2.lean and reproduced on the real "
     "code); v20_partial proves every case except an insertion after a complete environmental group, and v2_errors_afterEnv characterises the finding exactly.",
     _PARSER_NOTE, _TECH)
-for pid in ["C10", "C11", "C12"]:
-    LEVEL_TEXT[pid] = _lt("exploration", _PENDING, _NOTE, "differential testing of the implementation against an executable Lean Spec and model (proofs pending)")
 _SCORE_NOTE = ("trusted: Lean kernel (decide +kernel over complete finite tables, no native_decide); Base/F64.lean soft-float (validated on >1.5e6 hardware operations by the "
                "float stream); translator for the scoring functions (score stream: bit-exact comparison of every score on all base classes and sampled full objects); "
                "the Spec transcription of the equations/tables (Spec/V2, V3, V4; v4 lookup table from an independent transcription); no FMA contraction on this target")
